@@ -98,7 +98,9 @@ def check_impl(ctx, cases):
                 lines.append("heap %s %d %d %d %s %d %d %d" % (ind, pr[0], pr[1], pr[2], hx(2.0), sh, 3 * max(p, 1) + 10, tot))
                 probes.append((ind, pr, sh, tot))
     lines.append("END")
-    path = os.path.join(BUILD, "run", "C18heap.cases")
+    from common import RUNDIR
+    os.makedirs(RUNDIR, exist_ok=True)
+    path = os.path.join(RUNDIR, "C18heap.cases")
     open(path, "w").write("\n".join(lines) + "\n")
     binary = ctx.binary_release or ctx.binary
     pr_ = subprocess.run([binary, "run", path], stdout=subprocess.PIPE, text=True, timeout=3000)
